@@ -46,6 +46,11 @@ func (m *ModelServer) ListConsumables(_ context.Context, request *traits.ListCon
 	pageSize := capPageSize(int(request.GetPageSize()))
 
 	sortedItems := m.model.ListConsumables()
+	// The collection lists by the id an item is stored under; with a resource.WithIDInterceptor that is not the
+	// order of the Name field the page token is searched by: establish the order the search below relies on.
+	sort.Slice(sortedItems, func(i, j int) bool {
+		return sortedItems[i].Name < sortedItems[j].Name
+	})
 	nextIndex := 0
 	if lastKey != "" {
 		nextIndex = sort.Search(len(sortedItems), func(i int) bool {
@@ -133,6 +138,11 @@ func (m *ModelServer) ListInventory(_ context.Context, request *traits.ListInven
 	pageSize := capPageSize(int(request.GetPageSize()))
 
 	sortedItems := m.model.ListInventory()
+	// The collection lists by the id an item is stored under; with a resource.WithIDInterceptor that is not the
+	// order of the Consumable field the page token is searched by: establish the order the search below relies on.
+	sort.Slice(sortedItems, func(i, j int) bool {
+		return sortedItems[i].Consumable < sortedItems[j].Consumable
+	})
 	nextIndex := 0
 	if lastKey != "" {
 		nextIndex = sort.Search(len(sortedItems), func(i int) bool {
